@@ -32,7 +32,10 @@ PID = "C14"
 LEVEL = "exploration"
 RULE = ("targets: generated @script functions with 3..7 names live out of if / for / while / nested forms (plus 1-name "
         "controls), and onnx.helper models for optimize, rewrite (default rules; LayerNorm and RmsNorm fusion rule lists), "
-        "fold_constants (one shared FoldConstantsPass object) and convert_version (shared ConvertVersionPass objects); "
+        "fold_constants (one shared FoldConstantsPass object), convert_version (shared ConvertVersionPass objects; targets stratified: no adapter / GridSample / DFT, "
+        "nodes named or unnamed) and rewrite with two rule objects that live as long as the process (one with as_function=True); every target also gets a SIBLING "
+        "history on the very objects it exercises (same rule object on other models, conversions to the same target version through each adapter, a script that "
+        "uses the targets' tensor names as Python constants); "
         "histories: sequences of <=8 operations over {translate accepted/refused, optimize, rewrite firing stateful rules, "
         "rewrite raising inside ReshapeReshape.check, RewriteRule construction raising inside the pattern function, match "
         "whose check() stores rule fields and then fails (6 rules), default_as body raising after set_default, fold, convert "
